@@ -720,6 +720,9 @@ class StrandDetector:
     # all splice sites must be canonical from the same strand, not just the majority
     def get_clean_strand(self, introns):
         count_fwd, count_rev = self.count_canonical_sites(introns)
+        if count_fwd + count_rev < len(introns):
+            # an intron that is canonical on neither strand
+            return '.'
         if count_fwd == 0 and count_rev > 0:
             return  '-'
         elif count_fwd > 0 and count_rev == 0:
